@@ -1568,6 +1568,10 @@ func (env *LEnv) funCall(ctx context.Context, fun, args *LVal) *LVal {
 		// belong to an earlier caller in another package.
 		mark := markTailRec(npop, fun, args)
 		mark.Str = env.Runtime.Package.Name
+		// ... and where it was written: if the resumed call is refused (wrong
+		// number of arguments) the error belongs to this call expression, not
+		// to the one that entered the loop.
+		mark.source = env.loc
 		return mark
 	}
 
@@ -1600,6 +1604,9 @@ callf:
 			top.Terminal = false
 			fun, args = extractMarkTailRec(r)
 			resumePkg = r.Str
+			if r.source != nil {
+				env.loc = r.source
+			}
 			goto callf
 		}
 	}
